@@ -51,6 +51,9 @@ def run(ctx):
         for _ in range(per if fam not in ('CSwap', 'Sycamore') else 1):
             g = gates.draw(ctx.rng, fam)
             rows.append((fam, g, None))
+    for fam in fams:
+        if fam not in ('Ctrl', 'Matrix', 'Diagonal'):
+            rows += [(fam, g, None) for g in gates.special_grid(ctx.rng, fam) + gates.pair_grid(ctx.rng, fam)]
     for name, obj, g in named_constants(cirq, mods):
         rows.append(('named:' + name, g, obj))
     gate_stream(ctx, cirq, mods, rows)
